@@ -1,7 +1,7 @@
 ------------------------------- MODULE MC_Proxy -------------------------------
 (* Constants, sharding and scenario emission for Proxy.tla (C09).                             *)
 (* A scenario is one finished behaviour: configuration + the environment's choices (CONNECT   *)
-(* replies in order, requests after which the peer closed) + the log the model expects the    *)
+(* replies in order, exchanges after which the peer closed, redirects it answered) + the log the model expects the    *)
 (* two parties and the caller to record.                                                      *)
 EXTENDS Proxy, Json
 
@@ -24,6 +24,6 @@ MCSpec == MCInit /\ [][Next]_vars
 
 \* Evaluated once per distinct state: prints every finished behaviour exactly once.
 Emit == (EmitOn /\ Done) =>
-           PrintT(<<"SC", ToJson([cfg |-> cfg, nreq |-> nreq, replies |-> script.replies, closes |-> script.closes,
+           PrintT(<<"SC", ToJson([cfg |-> cfg, nreq |-> nreq, replies |-> script.replies, closes |-> script.closes, redirs |-> script.redirs,
                                    log |-> log])>>)
 =============================================================================
